@@ -199,9 +199,13 @@ def m_step(machine: "IVectorMachine", stats: IVectorStats) -> "IVectorMachine":
         fnorm_sigma_wij_tt = np.diagonal(
             stats.fnorm_sigma_wij @ X, axis1=-2, axis2=-1
         )
-        machine.sigma = (stats.snormij - fnorm_sigma_wij_tt) / stats.nij[
-            :, None
+        # A component without any data (nij == 0) keeps its covariance
+        seen = stats.nij > 0
+        new_sigma = np.array(machine.sigma, dtype=float)
+        new_sigma[seen] = (stats.snormij - fnorm_sigma_wij_tt)[seen] / stats.nij[
+            seen, None
         ]
+        machine.sigma = new_sigma
         machine.sigma[
             machine.sigma < machine.variance_floor
         ] = machine.variance_floor
